@@ -151,6 +151,7 @@ def run_plan(config: dict[str, Any], transforms: Any, monitor: Monitor, j: Judge
 def judge_scripted(case: dict[str, Any]) -> Judgement:
     j = Judgement()
     mask = case["mask"]
+    relinf = bool(case.get("relinf"))
     n_free = V if mask is None else sum(mask)
     script = []
     for kind, idx in case["sequence"]:
@@ -159,12 +160,24 @@ def judge_scripted(case: dict[str, Any]) -> Judgement:
         else:
             script.append([free_point(n_free, idx), kind in ("f", "fg"), kind in ("g", "fg")])
     config = build_config(mask, case["sampler"], "verif/scripted", {"script": script})
+    if relinf:
+        # relative perturbations while the FIXED variables are unbounded: such a configuration may be rejected, but if
+        # it is accepted the fixed variables must still not move
+        fixed = [not m for m in mask]
+        config["variables"]["lower_bounds"] = [-np.inf if f else -10.0 for f in fixed]
+        config["variables"]["upper_bounds"] = [np.inf if f else 10.0 for f in fixed]
+        config["gradient"]["perturbation_types"] = 2
+        config["gradient"]["perturbation_magnitudes"] = 0.01
     transforms = transforms_of(case["scaler"])
     start = X0 + START_SHIFT if case.get("explicit_start") else None
     monitor = Monitor(j, mask, transforms, "scripted", start)
     try:
         code, scripted, evaluator = run_plan(config, transforms, monitor, j, start=start)
     except Exception as exc:  # noqa: BLE001
+        if relinf and isinstance(exc, ValueError):
+            j.trivial = True
+            j.outcome = "relinf:rejected"
+            return j
         j.fail(f"scripted-run-raised:{type(exc).__name__}", message=str(exc)[:200])
         return j
     log = scripted.log
@@ -377,6 +390,9 @@ def run_shard(shard: dict[str, Any]) -> core.ShardResult:
                     case = {"kind": "scripted", "mask": mask, "sampler": shard["sampler"], "scaler": shard["scaler"],
                             "sequence": [list(s) for s in seq], "explicit_start": explicit}
                     rec.add(("s", key_mask, shard["sampler"], shard["scaler"], seq, explicit), case, judge_scripted(case))
+                    if n == 1 and not explicit and mask is not None and not all(mask) and not shard["scaler"]:
+                        case2 = {**case, "relinf": True}
+                        rec.add(("s-relinf", key_mask, shard["sampler"], seq), case2, judge_scripted(case2))
     elif shard["kind"] == "real":
         for sampler in SAMPLERS:
             for scaler in (False, True):
